@@ -48,7 +48,7 @@ def jsonable(x: Any, depth: int = 0) -> Any:
     if isinstance(x, str):
         try:
             x.encode("utf-8")
-            return x if len(x) <= 4000 else x[:4000] + f"...[{len(x)} chars]"
+            return x if len(x) <= 200000 else x[:200000] + f"...[{len(x)} chars]"
         except UnicodeEncodeError:
             return "repr:" + ascii(x)
     if isinstance(x, (bytes, bytearray)):
